@@ -185,7 +185,7 @@ def Ipv4Header.fromSlice (b : Bytes) : Except Ipv4Err (Ipv4Header × Bytes) :=
 def Ipv4Header.sampleMax : Ipv4Header :=
   { dscp := 63, ecn := 3, totalLen := 65535, identification := 65535, dontFragment := true,
     moreFragments := true, fragmentOffset := 8191, timeToLive := 255, protocol := 255,
-    headerChecksum := 65535, source := [255, 255, 255, 255], destination := [255, 255, 255, 254],
+    headerChecksum := 12290, source := [255, 255, 255, 255], destination := [255, 255, 255, 254],
     options := List.replicate 40 255 }
 
 end EpModel.CodecNet
